@@ -236,6 +236,10 @@ def make_inputs(tier, seed):
 
 
 # ------------------------------------------------------------------------------- run + print
+class CaseTimeout(BaseException):
+    """not an Exception: extract() contains `except Exception` around every hook"""
+
+
 UNEXPECTED = []     # failures on F14-tagged descriptors that are NOT the known deviation (reported by extra_legs)
 
 
@@ -245,10 +249,10 @@ def run_case(desc):
     d = copy.deepcopy(desc)
 
     def on_alarm(signum, frame):    # extract() has no fuel: a wrong splice can loop for ever
-        raise TimeoutError("case did not finish within 30 s (extract() looping?)")
+        raise CaseTimeout("case did not finish within 30 s (extract() looping?)")
 
     old = signal.signal(signal.SIGALRM, on_alarm)
-    signal.setitimer(signal.ITIMER_REAL, 30)
+    signal.setitimer(signal.ITIMER_REAL, 30, 5)
     try:
         obs = G.run(d)
     finally:
